@@ -794,6 +794,8 @@ pub fn check_main(engine: &dyn Engine, tier: Tier) -> i32 {
     let mut coverage = serde_json::Map::new();
     let j = |v: u64| serde_json::Value::from(v);
     coverage.insert("evaluations".into(), j(total.runs));
+    coverage.insert("runs_requested".into(), j(runs));
+    coverage.insert("build_profile".into(), (if cfg!(debug_assertions) { "release + debug-assertions + overflow-checks" } else { "plain: release without debug-assertions and overflow-checks" }).into());
     coverage.insert("distinct_nontrivial".into(), j(distinct));
     coverage.insert("rule".into(), info.rule.clone().into());
     coverage.insert("unit".into(), info.unit.into());
